@@ -686,4 +686,58 @@ theorem dsim_init (hemp : dec "" = []) (w h : Int) (hw1 : 1 ≤ w) (hw2 : w ≤ 
       rw [rep _ _ _ _ hx, rep _ _ _ _ hy]
       exact Or.inr ⟨rfl, rfl, rfl, rfl, by rw [absCol_zero], rfl, rfl⟩ }
 
+/-! ### recognising a start state by inspection -/
+
+/-- The checkable part of `DSim dec (blank display, cursor hidden) e`: modes, flags, cursor at home,
+    default pen, no hyperlink, cursor hidden, default shape, every cell of the active grid never
+    written. -/
+def startCheck (e : Emu) : Bool :=
+  e.mode.decawm && !e.mode.irm && !e.mode.lnm && decide (e.cs.desig e.cs.sel = 0) && !e.cs.ss && e.osc8 &&
+  !e.lastCol && decide (e.cur.row = 0) && decide (e.cur.col = 0) && decide (e.cur.st = {}) &&
+  !e.mode.dectcem && decide (e.cur.shape = 0) &&
+  e.active.all (fun r => r.all (fun c => decide (c = {})))
+
+theorem dsim_of_startCheck (hemp : dec "" = []) (e : Emu) (rows cols : Nat) (hi : EmuInv e rows cols) (dm : Dim rows cols)
+    (h : startCheck e = true) :
+    DSim dec { Term.init cols rows with cursorVisible := false } e rows cols := by
+  unfold startCheck at h
+  simp only [Bool.and_eq_true, Bool.not_eq_true', decide_eq_true_eq, List.all_eq_true] at h
+  obtain ⟨⟨⟨⟨⟨⟨⟨⟨⟨⟨⟨⟨h1, h2⟩, h3⟩, h4⟩, h5⟩, h6⟩, h7⟩, h8⟩, h9⟩, h10⟩, h11⟩, h12⟩, h13⟩ := h
+  have := dm.c1
+  have hga := active_ok hi
+  exact
+  { inv := hi, dim := dm, vm := ⟨h1, h2, h3, h4, h5⟩
+    osc8 := h6
+    lc := by intro hl; rw [h7] at hl; cases hl
+    drows := rfl, dcols := rfl
+    row := by rw [h8]; rfl
+    col := by rw [h9]; show ((0 : Nat) : Int) = _; split <;> omega
+    pw := by rw [h9]; show false = _; symm; rw [decide_eq_false_iff_not]; omega
+    pen := by rw [h10]; exact absStyle_default.symm
+    link := by rw [h10]; exact hemp
+    linkParams := by rw [h10]; exact hemp
+    vis := by rw [h11]
+    shape := by rw [h12]; rfl
+    grid := by
+      show GridRel dec (List.replicate rows (List.replicate cols DCell.blank)) e.active
+      refine ⟨by rw [hga.len]; simp, ?_⟩
+      intro i a b ha hb
+      have hbm := List.mem_of_getElem? hb
+      have ha' : a = List.replicate cols DCell.blank := by
+        rw [List.getElem?_replicate] at ha
+        split at ha
+        · exact (Option.some.inj ha).symm
+        · cases ha
+      subst ha'
+      refine ⟨by rw [hga.rowLen b hbm]; simp, ?_⟩
+      intro j x y hx hy
+      have hx' : x = DCell.blank := by
+        rw [List.getElem?_replicate] at hx
+        split at hx
+        · exact (Option.some.inj hx).symm
+        · cases hx
+      have hy' : y = {} := h13 b hbm y (List.mem_of_getElem? hy)
+      subst hx'; subst hy'
+      exact Or.inr ⟨rfl, rfl, rfl, rfl, by rw [absCol_zero], rfl, rfl⟩ }
+
 end VaxisModel.Lemmas.C12Sim
